@@ -9,7 +9,7 @@ from .. import report as R
 from ..report import RuleSpec
 from .. import codec as C
 from .. import cmp as P
-from .common import fn_loc, short, unparse, returns_of, attr_chain, concrete_classes
+from .common import fn_loc, short, unparse, returns_of, attr_chain, concrete_classes, inline_locals
 from . import rate_model as RM
 
 RATES = ["reamber.base.Map.Map.rate", "reamber.base.MapSet.MapSet.rate", "reamber.osu.OsuMap.OsuMap.rate",
@@ -120,6 +120,9 @@ def rule_r3(ctx) -> List[R.Inst]:
         key = ms.rsplit(".", 1)[1]
         if sc.per_chart:
             insts.append(R.ok("C13.R3", key, file, line, idiom=sc.per_chart_why))
+        elif sc.per_chart is None and sc.per_chart_unknown:
+            insts.append(R.undec("C13.R3", key, file, line, f"charts are rated in a statement whose result is not followed to the returned "
+                                                            f"set: {sc.per_chart_unknown}"))
         else:
             insts.append(R.viol("C13.R3", key, file, line,
                                 sc.per_chart_why or "the effective rate() of this mapset class does not rate every chart",
@@ -184,7 +187,8 @@ def rule_r4(ctx) -> List[R.Inst]:
                     guarded = f in getattr(sc, "guarded", set())      # (a None-guard inside dataclasses.replace(..): rate_model)
                     if ("reamber." + got[2]) in M.funcs:
                         for n in ast.walk(M.nfn("reamber." + got[2]).node):      # (the model interprets the normal form)
-                            if isinstance(n, ast.If) and any(x is got[1] for b in n.body for x in ast.walk(b)) and f in unparse(n.test):
+                            if isinstance(n, ast.If) and any(x is got[1] for b in n.body for x in ast.walk(b)) and \
+                                    f in unparse(inline_locals(M.nfn("reamber." + got[2]).node, n.test, kinds=(ast.Compare, ast.BoolOp, ast.Attribute))):
                                 guarded = True
                     k2 = f"{cname}.rate:{f}:sentinel"
                     if guarded:
